@@ -4,7 +4,7 @@
    are distinct result values, so "never reads outside the range" and "always
    terminates" are the statement that they are never produced. *)
 From Coq Require Import List ZArith Lia Bool.
-From Sim Require Import HttpParse HttpParseProofs.
+From Sim Require Import HttpParse HttpParseProofs HttpRoundTrip.
 Import ListNotations.
 Local Open Scope Z_scope.
 
@@ -54,3 +54,23 @@ Example C15_sample_len : find_request_len sample (Z.of_nat (length sample)) = Ok
 Proof. vm_compute. reflexivity. Qed.
 Example C15_truncated_fails : parse_request sample 30 = ParseFail.
 Proof. vm_compute. reflexivity. Qed.
+
+(* ROUND TRIP: a request written down field by field - method and target without
+   blanks, a version without CR, header names without CR and colon, header values
+   without CR - is parsed back into exactly those fields: the method, the target, the
+   normalised path of the target, and the headers (name lower-cased and trimmed, value
+   trimmed, the last of equal names wins, in the order of std::map) *)
+Theorem C15_round_trip :
+  forall m t ver hs, no SP m -> no SP t -> no CR ver -> Forall wf_header hs ->
+  let E := enc_request m t ver hs in
+  parse_request E (Z.of_nat (length E)) =
+    Ok {| r_method := m; r_req := t; r_path := path_of m t; r_headers := fold_left add_header hs [] |}.
+Proof. exact parse_request_roundtrip. Qed.
+Print Assumptions C15_round_trip.
+
+Example C15_round_trip_instance :
+  enc_request [71;69;84] [47;97;47;46;46;47;98;63;120] [72;84;84;80;47;49;46;49]
+              [([72;111;115;116], [104]); ([88], [32;121;32]); ([120], [122])] = sample /\
+  fold_left add_header [([72;111;115;116], [104]); ([88], [32;121;32]); ([120], [122])] []
+    = [([104;111;115;116], [104]); ([120], [122])].
+Proof. vm_compute. split; reflexivity. Qed.
